@@ -748,7 +748,7 @@ def r6_tree_eq_hash_drop(rule, root=None):
             rule.ok("hash visits every node unconditionally", file=TREE, line=hs["ln"])
         t = A.ftxt(body)
         mt = t.fmatch("std::mem::discriminant($T).hash(state)")
-        if mt is not None and t.fmatch("todo.extend($T.iter_children().map(|$C|$C.as_ref()))", bind=mt) is not None:
+        if mt is not None and (t.fmatch("todo.extend($T.iter_children().map(|$C|$C.as_ref()))", bind=mt) is not None or t.fmatch("for$C in$T.iter_children(){todo.push($C.as_ref());}".replace(" ", ""), bind=mt) is not None):
             rule.ok("hash mixes the variant tag and walks iter_children")
         else:
             rule.bad("hash|walk", "Hash for TreeOp must hash the discriminant and walk iter_children()", A.where(hs))
@@ -864,7 +864,7 @@ def r6_tree_eq_hash_drop(rule, root=None):
             else:
                 rule.bad("eq|%s" % v, "eq for TreeOp::%s is `%s`" % (v, g[:80]), A.where(eq))
         t = A.ftxt(eq["body"])
-        if t.fmatch("todo.extend(a.iter_children().zip(b.iter_children()).map(|($P,$Q)|($P.as_ref(),$Q.as_ref())))") is not None:
+        if t.fmatch("todo.extend(a.iter_children().zip(b.iter_children()).map(|($P,$Q)|($P.as_ref(),$Q.as_ref())))") is not None or t.fmatch("for($P,$Q)ina.iter_children().zip(b.iter_children()){todo.push(($P.as_ref(),$Q.as_ref()));}") is not None:
             rule.ok("eq recurses over iter_children pairwise on the heap")
         else:
             rule.bad("eq|walk", "eq must walk both trees' iter_children() pairwise", A.where(eq))
